@@ -148,8 +148,8 @@ theorem solve_keeps_tableau_good (target : STab) (hg : target.Good) (s : Solver.
 /-- `rref` (echelon gauge), as the solver uses it between steps, keeps the signed stabilizer group and the `Good`-ness (all sizes) -/
 theorem rref_keeps_group (t t' : STab) (brs : List String) (hg : t.Good) (hr : t.rref = .ok (t', brs)) :
     t'.n = t.n ∧ t'.Good ∧ ∀ p, t'.Spn p ↔ t.Spn p :=
-  ⟨(STab.rref_spanEq t t' brs hg hr).1.n_eq.symm, (STab.rref_spanEq t t' brs hg hr).2,
-   fun p => ⟨(STab.rref_spanEq t t' brs hg hr).1.sup p, (STab.rref_spanEq t t' brs hg hr).1.sub p⟩⟩
+  ⟨(STab.rref_spanEq_ss t t' brs hg hr).1.n_eq.symm, (STab.rref_spanEq_ss t t' brs hg hr).2,
+   fun p => ⟨(STab.rref_spanEq_ss t t' brs hg hr).1.sup p, (STab.rref_spanEq_ss t t' brs hg hr).1.sub p⟩⟩
 
 /-- what remains unproved (completeness, Li–Economou–Barnes; false for graphs with an isolated vertex on the current tree — D3):
     for every simple graph without isolated vertex the solver model returns and its final working tableau generates the group of |0…0⟩
